@@ -645,6 +645,10 @@ def pending_flush(ctx: Ctx, model: Model, backend: str):
         for n, v in e.state.env.items():
             if isinstance(v, tuple) and v and v[0] == "phi" and n not in pend and u._is_pending(v):
                 pend[n] = v
+    if len(set(pend.values())) == 1 and len(pend) > 1:
+        # the same loop-carried value seen under the parameter name of an inlined helper as well: keep the function's own name
+        own = [n for n in pend if ":" not in n] or sorted(pend)
+        pend = {own[0]: pend[own[0]]}
     if len(pend) != 1:
         raise AnalysisError(f"{u.qual}: the count of pending escape bytes was not identified (candidates {sorted(pend)}): unknown idiom")
     (name, phi), = pend.items()
